@@ -532,4 +532,7 @@ class CuckooFilter:
 
     def _calc_fingerprint_size(self) -> int:
         """calculate fingerprint size (bits) based on error rate and bucket size"""
-        return int(math.ceil(math.log2(1.0 / self.error_rate) + math.log2(self.bucket_size) + 1))
+        bits = int(math.ceil(math.log2(1.0 / self.error_rate) + math.log2(self.bucket_size) + 1))
+        while 2 * self.bucket_size / 2**bits > self.error_rate:  # floating point log2 can land one bit short
+            bits += 1
+        return bits
